@@ -254,10 +254,10 @@ IsKeyCtor(ev)  == ev.op \in {"key.NewPrivate", "key.NewPrivateFromScalar", "key.
                               "skey.New", "skey.FromECDSA", "spub.New", "spub.FromPoint", "spub.FromECDSA", "key.Recover", "key.ParseASN1"}
 
 (* a step is well behaved: failure => frame; caller actions and everything that is not a key constructor leave keys alone *)
-StepOK(st, ev) ==
-  LET r == Step(st, ev) IN
+StepOKR(st, ev, r) ==
   /\ r.kind \in {"ok", "err", "panic"}
   /\ (r.kind # "ok" => r.st = st)
   /\ (~IsKeyCtor(ev) => r.st.priv = st.priv /\ r.st.pub = st.pub /\ r.st.spriv = st.spriv /\ r.st.spub = st.spub)
   /\ StateOK(r.st)
+StepOK(st, ev) == StepOKR(st, ev, Step(st, ev))
 =============================================================================
